@@ -151,6 +151,14 @@ def entry_points(g):
         yield nm, {}, lambda c, fn=fn: g.name(_search(fn, uni, v0))
     yield "basic_render", {"rfunc": f_render, "sort": f_sort}, lambda c: _render(uni, c)
     yield "render_to_plantuml_src", {"user_render_func": f_urf}, lambda c: plantuml.render_to_plantuml_src(uni, puml_table(c["user_render_func"] or f_urf))
+    # option tables off the beaten path: a title that names an attribute show_attrs hides (whether that renders or is
+    # refused, the graph stays as it was), no attributes shown at all, properties / class-level names shown
+    for label, vopt in (("title_names_hidden_attr", {"show_attrs": ["no_such_name"], "title_format": "N{idx}"}),
+                        ("title_names_hidden_attr_next_to_shown_property", {"show_attrs": ["uid", "links"], "title_format": "{uid}-{idx}"}),
+                        ("shows_properties_and_class_level_names", {"show_attrs": ["uid", "universes", "kind", "idx"], "title_format": "N{idx}"}),
+                        ("shows_everything", {"show_attrs": [".+"], "title_format": "$id"})):
+        tbl = {Vertex: dict({"type": "object"}, **vopt), TwoEndedLink: {"v1side": "", "v2side": ">"}}
+        yield "render_to_plantuml_src:" + label, {}, lambda c, tbl=tbl: _puml(uni, tbl)
     yield "make_pyvis_net", {"rvfunc": f_render, "refunc": f_redge}, lambda c: net_view(egpyvis.make_pyvis_net(uni, rvfunc=c["rvfunc"], refunc=c["refunc"]))
     yield "pyvis_render_customizable", {"rvfunc": f_render, "refunc": f_redge}, lambda c: net_view(egpyvis.pyvis_render_customizable(uni, rvfunc=c["rvfunc"], refunc=c["refunc"]))
     yield "nrpickler.dumps", {}, lambda c: len(nrpickler.dumps(uni)) > 0
@@ -168,6 +176,13 @@ def _lifecycle(gen, steps, close):
         gen.close()
     del gen  # reference counting finalises it here (no cycle holds it)
     return n
+
+
+def _puml(uni, table):
+    try:
+        return len(plantuml.render_to_plantuml_src(uni, table)) > 0
+    except (KeyError, ValueError, IndexError, AttributeError, TypeError) as exc:
+        return "refused:" + type(exc).__name__
 
 
 def _search(fn, uni, v0):
@@ -387,7 +402,7 @@ def run(ctx):
     quick = ctx.tier == "quick"
     specs = []
     frng = random.Random(13)
-    for spec in graphs.family_specs(frng, sizes=(4, 6), ecls=graphs.ECLS_X, vcls=graphs.VCLS_X):
+    for spec in graphs.family_specs(frng, sizes=(4, 6), ecls=graphs.ECLS_X, vcls=graphs.VCLS_XB):
         spec = dict(spec)
         if not spec.get("uni"):
             spec["uni"] = list(range(len(spec["verts"])))
@@ -401,7 +416,7 @@ def run(ctx):
             spec = specs[i]
         else:
             spec = graphs.rand_spec(rng, nmax=8 if quick else 20, mmax=12 if quick else 40,
-                                    ecls=graphs.ECLS_X if i % 2 else graphs.ECLS_DU, vcls=graphs.VCLS_X,
+                                    ecls=graphs.ECLS_X if i % 2 else graphs.ECLS_DU, vcls=graphs.VCLS_XB,
                                     uni_mode="all" if rng.random() < 0.6 else "rand")
             if not spec.get("uni"):
                 spec["uni"] = [j for j in range(len(spec["verts"])) if rng.random() < 0.8] or [0]
